@@ -122,6 +122,7 @@ fn main() {
         skips: vec![],
         depth_cap: None,
         heavy_depth_limit: None,
+        owning_by_shape: false,
     });
     let mine = r.states;
     let t1 = t0.elapsed().as_secs_f64();
